@@ -641,6 +641,123 @@ unit_R(uint64_t idx)
 	return 0;
 }
 
+/* mode M: long duration lists through dt_io_strpdtdur (the list grows in steps of 16 entries).
+ * unit = list length N; cases = patterns x sign variants x {one concatenated string, one string per element}.
+ * Oracle: no memory report / signal, and the accumulated list equals the durations parsed one at a time. */
+static int
+unit_M(uint64_t idx)
+{
+	EX_CTR(c_states, "states");
+	EX_CTR(c_eval, "evaluations");
+	EX_CTR(c_cases, "duration_list_cases");
+	EX_CTR(c_nontriv, "nontrivial");
+	int n = (int)idx;
+
+	++*c_states;
+	for (int pat = 0; pat < XD_NPAT; pat++) {
+		for (int sv = 0; sv < (pat >= 10 ? 1 : 2); sv++) {
+			for (int form = 0; form < 2; form++) {
+				static struct dt_dtdur_s want[80], got[80];
+				char all[1200], el[24], key[256], cas[64], cmd[1400];
+				volatile size_t ngot = 0;
+				volatile int res = 0, rounds = 0;
+				int nwant = 0, rc, wrote = 0;
+
+				if (xb_skip()) {
+					continue;
+				}
+				++*c_cases;
+				/* one at a time */
+				for (int i = 0; i < n; i++) {
+					struct __strpdtdur_st_s s1 = {0};
+					xd_elem(pat, sv, i, el, sizeof(el));
+					if (dt_io_strpdtdur(&s1, el) >= 0 && s1.ndurs == 1) {
+						want[nwant++] = s1.durs[0];
+					}
+					__strpdtdur_free(&s1);
+					++*c_eval;
+				}
+				if (form == 0) {
+					/* reading (src/dt-io.c: "the co-class prefix belongs to this string only"): inside ONE string a
+					 * '/' holds for the rest of that string */
+					int seen = 0;
+					for (int i = 0; i < nwant; i++) {
+						seen |= want[i].cocl;
+						want[i].cocl = (unsigned)seen;
+					}
+				}
+				xd_join(pat, sv, n, "", all, sizeof(all));
+				snprintf(cas, sizeof(cas), "M %d %d %d %d", n, pat, sv, form);
+				snprintf(cmd, sizeof(cmd), form ? "dadd 2012-03-04T12:34:56 %s   # (every duration its own argument)" : "dadd 2012-03-04T12:34:56 -- '%s'", all);
+				xr.n = 0;
+				xr.total = 0;
+				xt_fp = xt_in_fp = NULL;
+				XG_BEGIN(rc) {
+					struct __strpdtdur_st_s st = {0};
+					if (form == 0) {
+						const char *p = xa_place(&xa_inp, all, strlen(all) + 1);
+						do {
+							res = dt_io_strpdtdur(&st, p);
+							rounds++;
+							*c_eval += 1;
+						} while (res >= 0 && __strpdtdur_more_p(&st) && rounds < 200);
+					} else {
+						for (int i = 0; i < n && res >= 0; i++) {
+							size_t l = xd_elem(pat, sv, i, el, sizeof(el));
+							const char *p = xa_place(&xa_inp, el, l + 1);
+							do {
+								res = dt_io_strpdtdur(&st, p);
+								rounds++;
+								*c_eval += 1;
+							} while (res >= 0 && __strpdtdur_more_p(&st) && rounds < 200);
+						}
+					}
+					ngot = st.ndurs < 80 ? st.ndurs : 80;
+					if (xr.total == 0) {
+						memcpy(got, st.durs, ngot * sizeof(*got));
+						__strpdtdur_free(&st);
+					}
+				} XG_END;
+				if (rc) {
+					snprintf(key, sizeof(key), "duration list (%s): %s", form ? "one string per duration" : "one concatenated string", xg_signame(xr_sig));
+					report(key, (double)n, cas, cmd, "list of %d durations '%s': %s", n, all, xg_signame(xr_sig));
+					return 1;
+				}
+				for (int i = 0; i < xr.n; i++) {
+					snprintf(key, sizeof(key), "duration list (%s): %s in %s", form ? "one string per duration" : "one concatenated string", xr.r[i].kind, xr.r[i].site);
+					report(key, (double)n, cas, cmd, "list of %d durations '%s': %s (in %s)", n, all, xr.r[i].kind, xr.r[i].site);
+					wrote |= strncmp(xr.r[i].kind, "write", 5) == 0;
+				}
+				if (xr.n == 0 && (n == 0 ? 0 : (res < 0 || (int)ngot != nwant || memcmp(got, want, ngot * sizeof(*got))))) {
+					int at = 0;
+					while (at < (int)ngot && at < nwant && !memcmp(got + at, want + at, sizeof(*got))) {
+						at++;
+					}
+					snprintf(key, sizeof(key), "duration list (%s): the accumulated list differs from the durations read one at a time", form ? "one string per duration" : "one concatenated string");
+					report(key, (double)n, cas, cmd, "list of %d durations '%s': %zu entries (result %d), one at a time gives %d; first difference at entry %d", n, all,
+					       (size_t)ngot, res, nwant, at);
+				}
+				if (n > 16) {
+					++*c_nontriv;
+				}
+				ex_outcome(ex_hash_mix(ex_hash(got, ngot * sizeof(*got)), (uint64_t)ngot));
+				if (replay_verbose) {
+					printf("  list of %d durations '%s' (%s): %zu entries, %llu memory reports\n", n, all, form ? "one string each" : "one string", (size_t)ngot,
+					       (unsigned long long)xr.total);
+				}
+				if (ex_want_sample()) {
+					ex_sample("duration list n=%d '%s' (%s) -> %zu entries", n, all, form ? "one string each" : "one string", (size_t)ngot);
+				}
+				if (wrote || xr.total) {
+					/* memory behind a heap block was written: carry on in a fresh process */
+					return 1;
+				}
+			}
+		}
+	}
+	return 0;
+}
+
 static char g_mode;
 static void
 on_death(uint64_t idx, uint64_t sub, int st)
@@ -661,6 +778,7 @@ run_unit(char mode, uint64_t idx)
 	case 'L': return unit_L(idx);
 	case 'U': return unit_U(idx);
 	case 'R': return unit_R(idx);
+	case 'M': return unit_M(idx);
 	}
 	return 0;
 }
@@ -745,6 +863,29 @@ main(int argc, char *argv[])
 			l1 = xe_unhex(h1, b1, sizeof(b1) - 1);
 			b1[l1] = '\0';
 			unit_U(str2idx(b1, l1, SU));
+		} else if (ex.cas[0] == 'M' && sscanf(ex.cas, "M %d", &k) == 1 && k >= 0 && k <= 70) {
+			int pat, sv, form;
+			if (sscanf(ex.cas, "M %d %d %d %d", &k, &pat, &sv, &form) == 4) {
+				/* the case is number (cases before it in the unit) + 1 */
+				uint64_t before = 0;
+				for (int p2 = 0; p2 < XD_NPAT; p2++) {
+					for (int s2 = 0; s2 < (p2 >= 10 ? 1 : 2); s2++) {
+						for (int f2 = 0; f2 < 2; f2++) {
+							if (p2 < pat || (p2 == pat && (s2 < sv || (s2 == sv && f2 < form)))) {
+								before++;
+							}
+						}
+					}
+				}
+				{
+					static struct xb_shared fake;
+					xb = &fake;
+					xb_skip_upto = before;
+					xb_stop_unit = 0;
+					xb_stop_sub = before + 2;
+				}
+			}
+			unit_M((uint64_t)k);
 		} else if (ex.cas[0] == 'R' && sscanf(ex.cas, "R %1399s", h1) == 1) {
 			l1 = xe_unhex(h1, b1, sizeof(b1) - 1);
 			b1[l1] = '\0';
@@ -769,20 +910,22 @@ main(int argc, char *argv[])
 	ex_meta("rule", "byte strings in canonical order. G: string over {%% Y d b O _ t h s - a Z} (+%d calendar names) as format: calc_grep_atom, build_needle into 16 atoms, "
 		"dt_io_find_strpdt2 over the formatter's own text for it (bare, embedded, every truncation) + %d fixed lines. L: string over {2 0 1 - : T W b SPC @ + 0x01} as line x %d "
 		"format sets (none/standard needles, one per needle class, a 3-format set): dt_io_find_strpdt2 and dt_io_strpdt. U: string over {\\ a n t v x e z A %% 0x01 0x7f}: "
-		"dt_io_unescape in place. R: string over {1 0 - + = < / d m o s SPC}: the tools' loop around dt_io_strpdtdur. Every string in a block of exactly its size. "
+		"dt_io_unescape in place. M: duration lists of every length 0..%d over {1d 2b 1w 1mo 1y 3h 4m 5s 6rs} and the co-class forms {/1h /15m /30s /1d} (one unit throughout, "
+		"units in rotation, co-class forms in rotation, both in rotation; all '+' or signs alternating) as one concatenated string and as one string per duration into one list: no memory "
+		"report and the list equals the durations read one at a time (inside one string a '/' holds for the rest of the string, as the source says). R: string over {1 0 - + = < / d m o s SPC}: the tools' loop around dt_io_strpdtdur. Every string in a block of exactly its size. "
 		"Oracles: no ASan/bounds report, no fatal signal, returns within 1 s, match pointers inside the line, answers independent of the bytes behind the terminator (two fills), "
 		"unescape terminates inside its block, the duration loop ends within 64 rounds. non-trivial = case with a report, a changed string (U) or more than one duration (R).",
-		(int)NNAMED, NFIXED, NFSETS);
+		(int)NNAMED, NFIXED, NFSETS, XD_MAXN(ex.thorough));
 	ex_meta("bound", "formats (G): length <= %d (%llu strings); lines (L): length <= %d (%llu); unescape strings: length <= %d; duration strings (R): length <= %d",
 		lenG, (unsigned long long)nstrings(lenG), lenL, (unsigned long long)nstrings(lenL), lenU, lenR);
 	{
-		static const struct { char mode; int batch; } plan[] = {{'G', 512}, {'L', 512}, {'U', 8192}, {'R', 8192}};
+		static const struct { char mode; int batch; } plan[] = {{'M', 1}, {'G', 512}, {'L', 512}, {'U', 8192}, {'R', 8192}};
 		for (size_t k = 0; k < sizeof(plan) / sizeof(*plan) && !ex_expired(); k++) {
 			uint64_t total;
 			g_mode = plan[k].mode;
 			g_maxlen = g_mode == 'G' ? lenG : g_mode == 'L' ? lenL : g_mode == 'U' ? lenU : lenR;
 			g_nenum = nstrings(g_maxlen);
-			total = g_nenum + (g_mode == 'G' ? NNAMED : 0);
+			total = g_mode == 'M' ? (uint64_t)XD_MAXN(ex.thorough) + 1U : g_nenum + (g_mode == 'G' ? NNAMED : 0);
 			for (uint64_t lo = 0; lo < total && !ex.expired; lo += (uint64_t)plan[k].batch, slice++) {
 				uint64_t hi = lo + (uint64_t)plan[k].batch < total ? lo + (uint64_t)plan[k].batch : total;
 				if (!ex_mine(slice)) {
